@@ -99,6 +99,8 @@ def _split_item_key(key):
 
 def _item_value(cp, key):
   section, section_key = _split_item_key(key)
+  # blanks around the section name are not part of it (as for '[Pair ]' in the file and for the edit options)
+  section = section.strip()
   v = cp.raw_config_parser[section][section_key]
   return v 
 
